@@ -271,7 +271,8 @@ func (m *c19Model) liveSession(id string) (c19MSession, bool) {
 	if !ok {
 		return s, false
 	}
-	if m.notch > s.created { // one notch is more than sessionMaxAge
+	// a session lives for one hour (samlidp's sessionMaxAge) from the moment of the login that created it
+	if c19T[m.notch].After(c19T[s.created].Add(time.Hour)) {
 		return s, false
 	}
 	return s, true
@@ -799,6 +800,7 @@ func runC19(c *core.Ctx) {
 	c.Note("bfs_transitions", float64(totalTrans))
 	c.Note("fault_runs", float64(faultRuns))
 	c19Live(c, acts)
+	c19SessionLifetimes(c, acts)
 	c19LiveCredentials(c, acts)
 }
 
@@ -1056,6 +1058,106 @@ func c19BFS(t *core.T, c *core.Ctx, ini *c19State, acts []c19Action, first, maxD
 	return len(seen), transitions, faultRuns
 }
 
+// c19RunLiveSeq runs one sequence of actions on one long-lived server and compares every reply with the reference model.
+func c19RunLiveSeq(t *core.T, acts []c19Action, ini *c19State, seq []int, reported map[string]bool, n *int) {
+	st := ini.store.clone()
+	m := ini.m.clone()
+	srv, err := c19Server(st)
+	if err != nil {
+		return
+	}
+	var path []string
+	for _, ai := range seq {
+		a := acts[ai]
+		path = append(path, a.name)
+		if a.req == nil {
+			if m.notch < len(c19T)-1 {
+				m.notch++
+			}
+			continue
+		}
+		rq := a.req(m)
+		rep := c19Do(srv, rq, m.notch, core.Hash12(strings.Join(path, ";")))
+		*n++
+		if rep.panic != "" {
+			if !reported["panic"] {
+				reported["panic"] = true
+				t.Fail("C19/live/panic@"+rep.panic[strings.LastIndex(rep.panic, "@")+1:], "%s: %s", strings.Join(path, " ; "), rep.panic)
+			}
+			return
+		}
+		may, wantName, wantACS, _ := a.apply(m, rep)
+		got := hasAssertionForm(rep.body)
+		f := ""
+		if got != may {
+			f = "live/assertion-verdict-differs-from-model/" + actClass(a.name)
+		} else if got {
+			if d, derr := decodeIDPForm(rep.body, nil, samlgen.Key("idpec").Cert, c19T[m.notch]); derr == nil && (d.NameID != wantName || d.Destination != wantACS) {
+				f = "live/assertion-content-differs-from-model/" + actClass(a.name)
+			}
+		}
+		if f != "" && !reported[f] {
+			reported[f] = true
+			t.Fail("C19/"+f, "on one long-lived server, history %s (clock positions %v): assertion emitted=%v, model allows=%v (status %d)", strings.Join(path, " ; "), c19T, got, may, rep.code)
+		}
+		cheapen(st, m)
+	}
+}
+
+// c19SessionLifetimes: a login, then every sequence of <= 5 steps out of {use the session for SSO, launch a shortcut with it, let the
+// clock move on} with the clock moving in steps finer than the session lifetime (0, +40 min, +80 min, +122 min): a session ends one
+// hour after the login that created it, however often it was used in between.
+func c19SessionLifetimes(c *core.Ctx, acts []c19Action) {
+	c.Group("session-lifetime-histories")
+	idx := map[string]int{}
+	for i, a := range acts {
+		idx[a.name] = i
+	}
+	login, ok1 := idx[`login alice/"p1"`]
+	sso, ok2 := idx["SSO from A cookie=current"]
+	sc, ok3 := idx["shortcut launch /login/sc1 cookie=current"]
+	tick, ok4 := idx["tick past the session lifetime"]
+	if !ok1 || !ok2 || !ok3 || !ok4 {
+		c.Case("session-lifetimes/alphabet", func(t *core.T) { t.Fail("C19/harness/alphabet", "actions not found: %v %v %v %v", ok1, ok2, ok3, ok4) })
+		return
+	}
+	steps := []int{sso, sc, tick}
+	for first := range steps {
+		first := first
+		c.Case(fmt.Sprintf("session-lifetimes/login-then-%s", acts[steps[first]].name), func(t *core.T) {
+			t.NonTrivial()
+			old := c19T
+			c19T = []time.Time{samlgen.T0, samlgen.T0.Add(40 * time.Minute), samlgen.T0.Add(80 * time.Minute), samlgen.T0.Add(122 * time.Minute)}
+			defer func() { c19T = old }()
+			ini := c19Initials()[0]
+			reported := map[string]bool{}
+			n := 0
+			served, refused := 0, 0
+			var rec func(seq []int)
+			rec = func(seq []int) {
+				if len(seq) >= 3 {
+					before := len(reported)
+					c19RunLiveSeq(t, acts, ini, seq, reported, &n)
+					_ = before
+				}
+				if len(seq) == 6 {
+					return
+				}
+				for _, sidx := range steps {
+					rec(append(append([]int{}, seq...), sidx))
+				}
+			}
+			rec([]int{login, steps[first]})
+			_ = served
+			_ = refused
+			t.Evals(n)
+			t.Impl(n)
+			t.Compared()
+			t.Outcome("session-lifetime-block")
+		})
+	}
+}
+
 // c19Live runs every sequence of <= 3 light actions on ONE long-lived server and compares each reply with the reference model
 // (catches hidden server state that a restart would wipe).
 func c19Live(c *core.Ctx, acts []c19Action) {
@@ -1077,49 +1179,7 @@ func c19Live(c *core.Ctx, acts []c19Action) {
 			var rec func(seq []int)
 			rec = func(seq []int) {
 				if len(seq) == maxLen {
-					// run the whole sequence on one server
-					st := ini.store.clone()
-					m := ini.m.clone()
-					srv, err := c19Server(st)
-					if err != nil {
-						return
-					}
-					var path []string
-					for _, ai := range seq {
-						a := acts[ai]
-						path = append(path, a.name)
-						if a.req == nil {
-							if m.notch < len(c19T)-1 {
-								m.notch++
-							}
-							continue
-						}
-						rq := a.req(m)
-						rep := c19Do(srv, rq, m.notch, core.Hash12(strings.Join(path, ";")))
-						n++
-						if rep.panic != "" {
-							if !reported["panic"] {
-								reported["panic"] = true
-								t.Fail("C19/live/panic@"+rep.panic[strings.LastIndex(rep.panic, "@")+1:], "%s: %s", strings.Join(path, " ; "), rep.panic)
-							}
-							return
-						}
-						may, wantName, wantACS, _ := a.apply(m, rep)
-						got := hasAssertionForm(rep.body)
-						f := ""
-						if got != may {
-							f = "live/assertion-verdict-differs-from-model/" + actClass(a.name)
-						} else if got {
-							if d, derr := decodeIDPForm(rep.body, nil, samlgen.Key("idpec").Cert, c19T[m.notch]); derr == nil && (d.NameID != wantName || d.Destination != wantACS) {
-								f = "live/assertion-content-differs-from-model/" + actClass(a.name)
-							}
-						}
-						if f != "" && !reported[f] {
-							reported[f] = true
-							t.Fail("C19/"+f, "on one long-lived server, history %s: assertion emitted=%v, model allows=%v (status %d)", strings.Join(path, " ; "), got, may, rep.code)
-						}
-						cheapen(st, m)
-					}
+					c19RunLiveSeq(t, acts, ini, seq, reported, &n)
 					return
 				}
 				for _, ai := range light {
